@@ -1,11 +1,11 @@
 import Driver.Util
 import NixModel.Pure.NdRun
-open Lean Nix Nix.Nd Nix.Gen.Compr Nix.NdGen
+open Lean Nix Nix.Nd Nix.Gen.Compr Nix.NdGen Nix.NdSpell
 
 /-!
 Driver for C01.  One JSON object per line:
   {"fc": <file compression>, "bc": <block compression>, "refetched": bool, "ac": <array compression>,
-   "create": {"dtype": <name>|null, "shape": [n..]|null, "data": ARR|null},
+   "create": {"dtype": <name>|null, "shape": [n..]|null, "data": ARR|null, "dspell": <spelling>},
    "steps": [["write", ARR] | ["assign", [IX..], ARR] | ["append", ARR, axis] | ["resize", [int..]]
              | ["reopen"] | ["read", [IX..]] ...]}
   ARR = {"dt": <name>, "shape": [n..], "flat": [elements in C order]}     IX = int | [start|null, stop|null, step|null]
@@ -15,6 +15,9 @@ Elements: integers as numbers, floats as the number of their IEEE bit pattern, b
 The data of a step keeps its own element type ("dt"); the model converts it (NdConv) or refuses the step.
 Every operation is executed through the definitions compiled from the Python source (Generated/DataSetShape.lean):
 dsAppend, dsSetItem, dsWriteDirect, dsGetItem, dsLen, dsSize, dsSetExtent, createRules.
+"dspell" (optional) is the dtype argument as the user spells it - "py:float", "np:double", "nix:Float", "dt:>i4"
+(np.dtype('>i4')), "s:f8" ('f8'); when present the model decides what it means (Pure/NdSpell.lean, createSpelled)
+and "dtype" is not looked at.  Other spelling keys of the harness ("sp", "shspell") do not change the meaning.
 Output: {"ok": {"create": "ok"|<Err>, "compressed": bool, "steps": [<observation after each step>]}}.
 A special line ["resolve", fc, bc, ac, refetched] answers {"ok": bool}.
 -/
@@ -109,6 +112,28 @@ def indexOfJson (j : Json) : Option IndexArg :=
     | "t", some l => some (.tuple l)
     | _, _ => none
 
+/-- a type string split into its byte-order character and the rest -/
+def splitOrder (s : String) : Option Char × String :=
+  match s.toList with
+  | c :: rest => if c = '<' ∨ c = '>' ∨ c = '=' ∨ c = '|' then (some c, String.ofList rest) else (none, s)
+  | [] => (none, s)
+
+def spellingOfKey (key : String) : Option Spelling :=
+  match key.splitOn ":" with
+  | cls :: rest =>
+    let name := ":".intercalate rest
+    match cls with
+    | "py" =>
+      match name with
+      | "bool" => some (.py .bool) | "int" => some (.py .int) | "float" => some (.py .float)
+      | "str" => some (.py .str) | _ => none
+    | "np" => some (.npType name)
+    | "nix" => some (.nix name)
+    | "dt" => let (o, b) := splitOrder name; some (.dtypeObj o b)
+    | "s" => let (o, b) := splitOrder name; some (.typeStr o b)
+    | _ => none
+  | [] => none
+
 inductive Cmd where
   | step (s : TStep)
   | read (ix : IndexArg)
@@ -166,14 +191,18 @@ def handleCase (j : Json) : Option Json := do
   let refetched := jBool (j.getObjValD "refetched")
   let c := j.getObjValD "create"
   let dtJ := c.getObjValD "dtype"
-  let dtype ← if isNull dtJ then some none else (dtypeOfName (jStr dtJ)).map some
+  let spJ := c.getObjValD "dspell"
+  let spelled := !isNull spJ && !isNull dtJ
+  let dtype ← if isNull dtJ || spelled then some none else (dtypeOfName (jStr dtJ)).map some
   let shJ := c.getObjValD "shape"
   let shape ← if isNull shJ then some none else (natList? shJ).map some
   let dJ := c.getObjValD "data"
   let data ← if isNull dJ then some none else (arrOf dJ).map some
   let cmds ← (jArr (j.getObjValD "steps")).toList.mapM cmdOfJson
   let compr := resolveCompression fc bc ac refetched
-  match createGen dtype shape data compr with
+  let created ← if spelled then (spellingOfKey (jStr spJ)).bind fun sp => createSpelled sp shape data compr
+                 else some (createGen dtype shape data compr)
+  match created with
   | .error e => some (ok (Json.mkObj [("create", Json.str e.toString)]))
   | .ok A =>
     some (ok (Json.mkObj [("create", Json.str "ok"), ("first", observe "ok" A),
